@@ -122,9 +122,63 @@ fn marathon(rng: &mut Rng) -> Scenario {
     Scenario { subjects, paths: vec![FIXED_PATH.to_string()], clock_start: CLOCK_FLOOR + rng.below(1 << 30), hash_seed: rng.next_u64(), ops }
 }
 
+/// A history whose inputs are LONG and all different: 5-40 MiB of distinct pattern, file-name and
+/// format text pass through one caller thread — state that is bounded in bytes rather than in
+/// entries (an interner, arena or pool that is compacted or recycled when full) reaches its bound
+/// here. Every input is compiled twice from one tree when it arrives, and some are compiled again
+/// much later.
+fn bulk_text(rng: &mut Rng) -> Scenario {
+    let total: usize = *rng.pick(&[5usize, 12, 20, 40]) << 20;
+    let mut unit = *rng.pick(&[1usize << 10, 4 << 10, 4 << 10, 16 << 10, 64 << 10]);
+    while total / unit > 6000 {
+        unit *= 2;
+    }
+    let n = total / unit;
+    let style = rng.below(6);
+    let subjects: Vec<String> = (0..n)
+        .map(|i| {
+            let mut long = format!("p{i:05}");
+            let seg = format!("/seg{}_{i}", ["a", "data", "x0"][i % 3]);
+            while long.len() + seg.len() < unit {
+                long.push_str(&seg);
+            }
+            match if style == 5 { i as u64 % 5 } else { style } {
+                0 => format!("-name '*.log' -o -path '{long}/*'"),
+                1 => format!("-iname 'x{long}' -print"),
+                2 => format!("-name '*.log' -fprint {long}.txt"),
+                3 => format!("-name '*.log' -printf '{long} %p\\n'"),
+                _ => format!("-regex '.*{long}' -o -name '*.log'"),
+            }
+        })
+        .collect();
+    let mut ops = Vec::with_capacity(n + n / 20 + 40);
+    for i in 0..n {
+        ops.push(Op::Compile { subj: i, slot: i % 3, script: vec![], twice: true });
+        if i % 40 == 39 {
+            // an input seen long ago, or a recent one, again
+            let back = match rng.below(3) {
+                0 => rng.usize_below(4.min(i)),
+                1 => i - rng.usize_below(4.min(i)),
+                _ => rng.usize_below(i),
+            };
+            ops.push(Op::Compile { subj: back, slot: 0, script: vec![], twice: false });
+        }
+        if i % 1500 == 1499 {
+            ops.push(Op::ClockShift { delta: 3_600 });
+        }
+    }
+    for _ in 0..24 {
+        ops.push(Op::Compile { subj: rng.usize_below(n), slot: 1, script: vec![], twice: false });
+    }
+    Scenario { subjects, paths: vec![FIXED_PATH.to_string()], clock_start: CLOCK_FLOOR + rng.below(1 << 30), hash_seed: rng.next_u64(), ops }
+}
+
 pub fn scenario(rng: &mut Rng, tier: Tier) -> Scenario {
     if tier == Tier::Thorough && rng.chance(1, 25_000) {
         return marathon(rng);
+    }
+    if rng.chance(1, 2_000) {
+        return bulk_text(rng);
     }
     let n_subjects = rng.range(1, 4) as usize;
     let mut subjects = vec![];
@@ -362,6 +416,9 @@ pub fn judge(sc: &Scenario, obs: &[(usize, Obs)]) -> Judgement {
     let mut j = Judgement::default();
     let mut hash_diverged = false;
     let fail = |class: &str, detail: String, ops: Vec<usize>| Violation { class: class.into(), detail, ops };
+    if sc.subjects.iter().map(|s| s.len()).sum::<usize>() > 4 << 20 {
+        *j.counters.entry("histories_with_more_than_4_MiB_of_distinct_input_text".into()).or_insert(0) += 1;
+    }
 
     // ---- results the library calls equal compile to the same program and table
     for (i, o) in obs {
@@ -633,7 +690,7 @@ pub static PROP: crate::histcheck::HistProp = crate::histcheck::HistProp {
     id: "C15",
     scenario,
     judge,
-    rule: "One case = one seeded call history (10-60 operations, one in a hundred 150-600, in the thorough tier rare marathons of 20000-70000 compiles: parse, compile [once or twice from one tree], render, io_map, unrelated compilations that may fail part-way, clock shifts incl. backward steps and 2^33 s jumps, per-read clock scripts inside compile calls, caller-thread switches, hash-key epoch changes on fresh OS threads, logger level flips, environment changes [variables, simulated file system, working directory, CPU set]) over 1-4 generated expressions (well-formed ones from the whole vocabulary with boundary numbers and layout variants; ill-formed ones: GNU spellings the parser rejects, compile-refused constructs mid-expression), executed against the real parse/compile/scheme/io_map in a fresh child process per block; a sample of the histories is executed again in six further fresh processes with the same and with different hash seeds. Non-trivial = the history holds at least two successful compiles of one expression that has >= 2 hashed resources (distinct name/path patterns, printers) or >= 1 time test, and between them the clock window or the hash-key epoch/thread differs. distinct_nontrivial counts distinct shapes (hash of the operation-kind sequence with subjects, thread ids, shift signs and script activity) among the non-trivial histories.",
+    rule: "One case = one seeded call history (10-60 operations, one in a hundred 150-600, in the thorough tier rare marathons of 20000-70000 compiles; one history in 2000 passes 5-40 MiB of distinct long inputs through one caller: parse, compile [once or twice from one tree], render, io_map, unrelated compilations that may fail part-way, clock shifts incl. backward steps and 2^33 s jumps, per-read clock scripts inside compile calls, caller-thread switches, hash-key epoch changes on fresh OS threads, logger level flips, environment changes [variables, simulated file system, working directory, CPU set]) over 1-4 generated expressions (well-formed ones from the whole vocabulary with boundary numbers and layout variants; ill-formed ones: GNU spellings the parser rejects, compile-refused constructs mid-expression), executed against the real parse/compile/scheme/io_map in a fresh child process per block; a sample of the histories is executed again in six further fresh processes with the same and with different hash seeds. Non-trivial = the history holds at least two successful compiles of one expression that has >= 2 hashed resources (distinct name/path patterns, printers) or >= 1 time test, and between them the clock window or the hash-key epoch/thread differs. distinct_nontrivial counts distinct shapes (hash of the operation-kind sequence with subjects, thread ids, shift signs and script activity) among the non-trivial histories.",
     assumptions: &[
         "std reaches the wall clock only through libc clock_gettime and hash keys only through libc getrandom (both interposed by the harness binary; verified live at the start of every check)",
         "a digit run >= 10^9 in a program is either a number written in the expression (alone or times a size unit) or clock-derived; the simulated clock stays within [10^9 + 7, 2^40 - 12345] so that its clamped values are not round constants",
